@@ -129,6 +129,36 @@ def peel_ty(t):
     return t
 
 
+def _mk_cmp(op, l, r):
+    """integer comparisons against a literal use `>=` / `<` only: `x > 1` is `x >= 2`, `x <= 1` is `x < 2`; the literal is on the right"""
+    def intlit(t):
+        return t[0] == "lit" and isinstance(t[1], str) and re.fullmatch(r"\d+", t[1]) is not None
+    flip = {"<": ">", ">": "<", "<=": ">=", ">=": "<="}
+    if op in flip and intlit(l) and not intlit(r):
+        op, l, r = flip[op], r, l
+    if op == ">" and intlit(r):
+        return ("op", ">=", [l, ("lit", str(int(r[1]) + 1))])
+    if op == "<=" and intlit(r):
+        return ("op", "<", [l, ("lit", str(int(r[1]) + 1))])
+    return ("op", op, [l, r])
+
+
+def _apply(clo, arg):
+    """body of the one-parameter closure term `clo` with its parameter replaced by `arg`; closures nested inside move one level up"""
+    d = clo[1]
+
+    def sub(n):
+        if n[0] == "cparam":
+            if n[1] == d and n[2] == 0:
+                return arg
+            if n[1] > d:
+                return ("cparam", n[1] - 1, n[2])
+        if n[0] == "closure" and n[1] > d:
+            return ("closure", n[1] - 1, n[2], n[3])
+        return None
+    return rewrite(clo[3], sub)
+
+
 def _not(c):
     return c[2][0] if c[0] == "op" and c[1] == "Not" and len(c[2]) == 1 else ("op", "Not", [c])
 
@@ -520,6 +550,10 @@ class Norm:
                 def sub(n):
                     if n[0] == "elem" and _show(n) == es:
                         return ("cparam", d, 0)
+                    if n[0] == "cparam" and n[1] >= d:
+                        return ("cparam", n[1] + 1, n[2])        # closures of the loop body end up one level deeper
+                    if n[0] == "closure" and n[1] >= d:
+                        return ("closure", n[1] + 1, n[2], n[3])
                     return None
                 body = rewrite(x, sub)
                 r = ("call", "Iterator::collect", [("call", "Iterator::map", [it, ("closure", d, 1, body)])])
@@ -570,7 +604,7 @@ class Norm:
             it, clo = init[2][0][2]
             el = ("elem", it)
             d = clo[1]
-            parts.append(("for", it, rewrite(clo[3], lambda n: el if n[0] == "cparam" and n[1] == d and n[2] == 0 else None)))
+            parts.append(("for", it, _apply(clo, el)))
         else:
             return None
         if not parts and len(effs) == 1 and len(rel[0]) == 1 and rel[0][0][0] == "for":
@@ -629,20 +663,7 @@ class Norm:
         return ("match", scr, arms)
 
     def _iflet(self, pat, scr, then, els):
-        if scr[0] == "call" and scr[1] == "Iterator::find" and len(scr[2]) == 2 and scr[2][1][0] == "closure" and scr[2][1][2] == 1 \
-                and pat.startswith(("v1::Some(", "Option::Some(")):
-            base, el = _elem_of(scr[2][0])
-            d = scr[2][1][1]
-            pred = rewrite(scr[2][1][3], lambda n: el if n[0] == "cparam" and n[1] == d and n[2] == 0 else None)
-            hit = ("proj", scr, pat.split("(")[0], "0")
-            return ("call", "search", [base, pred, rewrite(then, lambda n: el if n == hit else None), els])
-        # if let Some(x) = X { Ok(x) } else { Err(e) }   ==   X.ok_or(e)
-        if pat in ("v1::Some($)", "Option::Some($)") and then[0] == "call" and then[1] == "Ok" and len(then[2]) == 1 \
-                and _show(then[2][0]) == _show(("proj", scr, pat.split("(")[0], "0")) and els[0] == "call" and els[1] == "Err" and len(els[2]) == 1:
-            return ("call", "ok_or", [scr, els[2][0]])
-        if _diverges(then) and _is_unit(els):
-            return ("early", [(_let(pat, scr), then)], ("lit", "()"))
-        return _mk_if(_let(pat, scr), then, els)        # matches!(x, PAT) == let PAT = x
+        return _mk_iflet(pat, scr, then, els)
 
     def transparent_fn(self, callee, nargs=None):
         """the body of a repo-local helper that rules look through (private, non-recursive, named by no rule), else None"""
@@ -893,7 +914,7 @@ class Norm:
             if name == "Option::ok_or" and len(args) == 1:
                 return ("call", "ok_or", [recv, args[0]])
             if name == "Option::ok_or_else" and len(args) == 1 and args[0][0] == "closure" and args[0][2] == 0:
-                return ("call", "ok_or", [recv, args[0][3]])
+                return ("call", "ok_or", [recv, _apply(args[0], None)])
             if name == "Option::unwrap_or_default" and not args and recv[0] == "call" and recv[1] == "then" and e.get("ty", "").endswith("TokenStream"):
                 return ("if", recv[2][0], recv[2][1], ("tpl", "quote", "", []))
             if name in TRANSPARENT and not args:
@@ -904,13 +925,13 @@ class Norm:
                 it, clo = recv[2]
                 d = clo[1]
                 el = ("elem", it)
-                body = rewrite(clo[3], lambda n: el if n[0] == "cparam" and n[1] == d and n[2] == 0 else None)
+                body = _apply(clo, el)
                 part = None
                 if body[0] == "call" and body[1] == "Option::map" and len(body[2]) == 2 and body[2][1][0] == "closure" and body[2][1][2] == 1:
                     O, c2 = body[2]
                     d2 = c2[1]
                     inner = ("proj", O, "v1::Some", "0")
-                    V = rewrite(c2[3], lambda n: inner if n[0] == "cparam" and n[1] == d2 and n[2] == 0 else None)
+                    V = _apply(c2, inner)
                     part = ("for", it, ("if", _let("v1::Some($)", O), V, ("lit", "()")))
                 elif body[0] == "call" and body[1] == "then" and len(body[2]) == 2:
                     part = ("for", it, ("if", body[2][0], body[2][1], ("lit", "()")))
@@ -920,7 +941,7 @@ class Norm:
                 # r.map(|v| X)  ==  match r { Ok(v) => Ok(X), Err(e) => Err(e) }
                 d = args[0][1]
                 okv = ("proj", recv, "v1::Ok", "0")
-                X = rewrite(args[0][3], lambda n: okv if n[0] == "cparam" and n[1] == d and n[2] == 0 else None)
+                X = _apply(args[0], okv)
                 return self._canon_match(recv, [("v1::Ok($)", None, ("call", "Ok", [X])), ("v1::Err($)", None, ("call", "Err", [("proj", recv, "v1::Err", "0")]))])
             if name == "Iterator::filter_map" and len(args) == 1 and args[0][0] == "closure" and args[0][2] == 1 and args[0][3][0] == "call" and args[0][3][1] == "then" \
                     and len(args[0][3][2]) == 2:
@@ -929,16 +950,9 @@ class Norm:
                 return ("call", "Iterator::map", [("call", "Iterator::filter", [recv, ("closure", d, 1, args[0][3][2][0])]), ("closure", d, 1, args[0][3][2][1])])
             if name == "Iterator::for_each" and len(args) == 1 and args[0][0] == "closure" and args[0][2] == 1:
                 # it.for_each(|x| f(x))  ==  for x in it { f(x) }
-                d = args[0][1]
-                el = ("elem", recv)
-
-                def sub3(n):
-                    if n[0] == "cparam" and n[1] == d and n[2] == 0:
-                        return el
-                    return None
-                return _mk_for(recv, rewrite(args[0][3], sub3))
+                return _mk_for(recv, _apply(args[0], ("elem", recv)))
             if name == "bool::then" and len(args) == 1 and args[0][0] == "closure" and args[0][2] == 0:
-                return ("call", "then", [recv, args[0][3]])      # c.then(|| x)  ==  if c {Some(x)} else {None}
+                return ("call", "then", [recv, _apply(args[0], None)])      # c.then(|| x)  ==  if c {Some(x)} else {None}
             if name == "bool::then_some" and len(args) == 1:
                 return ("call", "then", [recv, args[0]])
             if name.endswith("::expect") and len(args) == 1 and args[0][0] == "lit":
@@ -1031,6 +1045,8 @@ class Norm:
                         tail = ("seq", rest, tail[2]) if len(rest) > 1 or (rest and tail[2] != ("lit", "()")) else rest[0] if rest else tail[2]
                     else:
                         tail = ("lit", "()")
+                if e is self._fn_block and all(v[0] == "ret" and c != ("lit", "match") for c, v in early2):
+                    return _unreturn(("early", early2, tail))       # guard clauses of the function body are an if / else chain
                 return ("early", early2, tail)
             return tail
         if k == "Match":
@@ -1099,7 +1115,7 @@ class Norm:
         if k == "Repeat":
             return ("repeat", self._t(e["e"]))
         if k == "Binary":
-            return ("op", e["op"], [self._t(e["l"]), self._t(e["r"])])
+            return _mk_cmp(e["op"], self._t(e["l"]), self._t(e["r"]))
         if k == "Cast":
             return ("cast", e.get("ty", "?"), self._t(e["e"]))
         if k == "Index":
@@ -1163,6 +1179,24 @@ def _split_or(c):
     return [c]
 
 
+def _mk_iflet(pat, scr, then, els):
+    if scr[0] == "call" and scr[1] == "Iterator::find" and len(scr[2]) == 2 and scr[2][1][0] == "closure" and scr[2][1][2] == 1 \
+            and pat.startswith(("v1::Some(", "Option::Some(")):
+        base, el = _elem_of(scr[2][0])
+        d = scr[2][1][1]
+        pred = _apply(scr[2][1], el)
+        hit = ("proj", scr, pat.split("(")[0], "0")
+        return ("call", "search", [base, pred, rewrite(then, lambda n: el if n == hit else None), els])
+    # if let Some(x) = X { Ok(x) } else { Err(e) }   ==   X.ok_or(e)
+    if pat in ("v1::Some($)", "Option::Some($)") and then[0] == "call" and then[1] == "Ok" and len(then[2]) == 1 \
+            and _show(then[2][0]) == _show(("proj", scr, pat.split("(")[0], "0")) and els[0] == "call" and els[1] == "Err" and len(els[2]) == 1:
+        return ("call", "ok_or", [scr, els[2][0]])
+    if _diverges(then) and _is_unit(els):
+        return ("early", [(_let(pat, scr), then)], ("lit", "()"))
+    return _mk_if(_let(pat, scr), then, els)        # matches!(x, PAT) == let PAT = x
+
+
+
 def _unreturn(t):
     """value of an inlined function body: `return v` becomes the value v"""
     if t[0] == "ret":
@@ -1172,9 +1206,13 @@ def _unreturn(t):
         for c, v in reversed(t[1]):
             if v[0] == "ret":
                 if c[0] == "iflet-not":
-                    res = ("if", _let(c[1], c[2]), res, _unreturn(v[1]))
+                    res = _mk_iflet(c[1], c[2], res, _unreturn(v[1]))
+                elif c[0] == "iflet":
+                    res = _mk_iflet(c[1], c[2], _unreturn(v[1]), res)
+                elif c[0] == "op" and c[1] == "Not" and len(c[2]) == 1:
+                    res = _mk_if(c[2][0], res, _unreturn(v[1]))
                 else:
-                    res = ("if", c, _unreturn(v[1]), res)
+                    res = _mk_if(c, _unreturn(v[1]), res)
             else:
                 return t
         return res
@@ -1313,7 +1351,7 @@ def _proj_some(O):
     if O[0] == "call" and O[1] == "Option::map" and len(O[2]) == 2 and O[2][1][0] == "closure" and O[2][1][2] == 1:
         d = O[2][1][1]
         inner = _proj_some(O[2][0])
-        return rewrite(O[2][1][3], lambda n: inner if n[0] == "cparam" and n[1] == d and n[2] == 0 else None)
+        return _apply(O[2][1], inner)
     return ("proj", O, "v1::Some", "0")
 
 
@@ -1325,7 +1363,7 @@ def _mk_for(it, body):
         d = clo[1]
         old = ("elem", it)
         el = ("elem", base)
-        f = rewrite(clo[3], lambda n: el if n[0] == "cparam" and n[1] == d and n[2] == 0 else None)
+        f = _apply(clo, el)
         if it[1] == "Iterator::map":
             return _mk_for(base, rewrite(body, lambda n: f if n == old else None))
         if it[1] == "Iterator::filter":
@@ -1342,7 +1380,7 @@ def _elem_of(it):
     if it[0] == "call" and it[1] == "Iterator::map" and len(it[2]) == 2 and it[2][1][0] == "closure" and it[2][1][2] == 1:
         base, el = _elem_of(it[2][0])
         d = it[2][1][1]
-        return base, rewrite(it[2][1][3], lambda n: el if n[0] == "cparam" and n[1] == d and n[2] == 0 else None)
+        return base, _apply(it[2][1], el)
     return it, ("elem", it)
 
 
